@@ -374,7 +374,12 @@ def heapStep (d : HeapDrv) (op : Json) (r : Json) (p' : Pool) : HeapDrv :=
   else if o = "el.new" then hDerive d id Heap.elNew
   else if o = "sq.new" then hDerive d id Heap.sqNew
   else if ["bp.insert", "bp.remove", "bp.changeArg", "bp.changeDur", "bp.setSegMarker", "bp.removeSegMarker", "bp.appendMarker", "bp.setSR"].contains o then
-    if ok then hAct d id (Heap.bpMutate t) else refused id
+    if ok then hAct d id (Heap.bpMutate t)
+    else if o = "bp.changeArg" && fBool op "all" then
+      -- a refused `replaceeverywhere` edit may have changed the segments in front of the failing one (C05: only single-segment
+      -- edits are promised to leave the blueprint unchanged): the contents count as changed
+      hAct (refused id) id (Heap.bpMutate t)
+    else refused id
   else if o = "bp.setMarker" then
     if ok then hAct d id (fun b => Heap.bpSetMarker t b ("marker" ++ toString (fInt op "which"))) else refused id
   else if o = "bp.copy" || o = "bp.json" then
